@@ -51,7 +51,7 @@ reg("C04", "rv-engine", "exploration", "whole-database walker + full event repla
     _MIX + "every N commits and at the end an own walker sums all vaults per resource, compares with recorded supplies, checks non-negative balances and NF vault counts, and replays every event emitted since genesis to recompute all vault balances and supplies; per transaction each vault's balance change must equal the replay of its own events. The repository's resource checker/reconciler runs as a second opinion.",
     _LEDGER_NOTE, "DESIGN.md §4 C04")
 reg("C05", "rv-engine", "exploration", "whole-database well-formedness walker",
-    _MIX + "every N commits and at the end an own walker checks single ownership of every internal node, global-only references, presence of state/type info for every owned or referenced entity and consistency of the entity-type byte with the stored blueprint; schema conformance and role-assignment validity are checked by running the repository's SystemDatabaseChecker + RoleAssignmentDatabaseChecker on the same states.",
+    _MIX + "every N commits and at the end an own walker checks single ownership of every internal node, global-only references, presence of state/type info for every owned or referenced entity and consistency of the entity-type byte with the stored blueprint; schema conformance and role-assignment validity are checked by running the repository's SystemDatabaseChecker + RoleAssignmentDatabaseChecker on the same states. Secondary workload (rv-probe): SysProbe components write values listing one Own twice (tuple, array, separated by data, re-write of an open entry) into own collection entries and held key-value stores; an accepted write is a violation and the walkers run after any commit that followed such a step.",
     _LEDGER_NOTE + " Schema conformance clause trusts sbor payload validation (monitored separately by C22).", "DESIGN.md §4 C05")
 reg("C02", "rv-engine", "fault_enumeration", "fault-injection sweep + failure-shape allow-list monitor",
     "For each generated manifest on an aged ledger the number n of injectable system-callback steps is learned, then the manifest is re-executed from the same snapshot with a system error injected at every step 1..=n (or 250 spread points when n > 300); each commit-failure receipt's raw state diff and events are classified against the allow-list of the property (fee vault balances by exactly -payment, validator reward bookkeeping, replay-protection record, fee events only) and the whole-database walkers run on sampled post-failure states. Natural failures of the workload are classified the same way in every ledger run.",
@@ -221,6 +221,7 @@ reg("C49", "rv-probe", "exploration", "limit boundary probes (exactly L / L+1) +
 CHECKS["C49"]["also"] = ["rv-engine"]
 CHECKS["C11"]["also"] = ["rv-engine"]
 CHECKS["C51"]["also"] = ["rv-probe"]
+CHECKS["C05"]["also"] = ["rv-probe"]
 CHECKS["C51"]["text"] += " A second workload (rv-probe) exercises locks taken by a custom component: field_lock, key-value entry locks (collection and owned store) and component royalty lock, followed by write/set/remove attempts in later transactions."
 CHECKS["C51"]["note"] = _LEDGER_NOTE
 CHECKS["C36"]["also"] = ["rv-flow"]
